@@ -23,7 +23,7 @@ BAD = " /@\n\t!+é"
 
 
 def rand_id(rng):
-    kind = ["plain", "versioned", "versioned", "leading0", "multi", "bad", "empty-name", "no-digits", "nonascii", "bigver"][int(rng.integers(0, 10))]
+    kind = ["plain", "versioned", "versioned", "leading0", "multi", "bad", "empty-name", "no-digits", "nonascii", "bigver", "padded"][int(rng.integers(0, 11))]
     name = "".join(ALLOWED[int(rng.integers(0, len(ALLOWED)))] for _ in range(int(rng.integers(1, 7))))
     if kind == "plain":
         return kind, name
@@ -37,6 +37,10 @@ def rand_id(rng):
         i = int(rng.integers(0, len(name) + 1))
         s = name[:i] + BAD[int(rng.integers(0, len(BAD) - 1))] + name[i:]
         return kind, s + ("-v%d" % int(rng.integers(0, 9)) if rng.random() < 0.6 else "")
+    if kind == "padded":   # a WELL-FORMED id with white space / a line break before or after it (regex `$` matches before a final "\n")
+        pad = ["\n", "\n\n", " ", "\r", "\t", "\r\n", "\x0b", "\x0c"][int(rng.integers(0, 8))]
+        core_id = "%s-v%d" % (name, int(rng.integers(0, 30)))
+        return kind, (core_id + pad) if rng.random() < 0.7 else (pad + core_id)
     if kind == "empty-name":
         return kind, "-v%d" % int(rng.integers(0, 9))
     if kind == "no-digits":
@@ -56,7 +60,9 @@ def real_parse(reg, s):
             return [0]
         if m.startswith("Version missing"):
             # name printed in the message: "got name=<name> and version=None"
-            n = reg.ENV_NAME_RE.fullmatch(s).group("name")
+            import re as _re
+            mm = _re.match(r"Version missing, got name=(.*) and version=None", m, flags=_re.S)
+            n = mm.group(1) if mm else ""
             return [1, len(n)] + [ord(c) for c in n]
         return [9]
 
